@@ -56,6 +56,7 @@ import (
 	"os/exec"
 	"path/filepath"
 	"regexp"
+	"runtime"
 	"sort"
 	"strconv"
 	"strings"
@@ -795,7 +796,20 @@ func c19WindowLeak(pub crypto.PublicKey, data []byte, windows *int64) string {
 	return ""
 }
 
-// c19PubsInRequest extracts the public key a /certgen/ request offers.
+// c19MaxWindow is the longest window c19WindowLeak examines for pub.
+func c19MaxWindow(pub crypto.PublicKey) int {
+	switch k := pub.(type) {
+	case *ecdsa.PublicKey:
+		return (k.Curve.Params().N.BitLen() + 7) / 8
+	case ed25519.PublicKey:
+		return ed25519.SeedSize
+	case *rsa.PublicKey:
+		return (k.N.BitLen()+15)/16 + 1
+	}
+	return 1
+}
+
+// c19PubInRequest extracts the public key a /certgen/ request offers.
 func c19PubInRequest(r *c19Req) (crypto.PublicKey, string, error) {
 	_, params, err := mime.ParseMediaType(r.Header.Get("Content-Type"))
 	if err != nil {
@@ -863,18 +877,18 @@ type c19FileObs struct {
 }
 
 type c19RunObs struct {
-	Run       int               `json:"run"`
-	Err       string            `json:"err,omitempty"`
-	Requests  []string          `json:"requests"`
-	Certs     []c19CertReq      `json:"cert_requests"`
-	Files     []c19FileObs      `json:"files"`
-	AgentList map[string]int    `json:"agent_entries,omitempty"`
-	Captured  []string          `json:"captured_keys"`
-	BytesL1   int               `json:"bytes_l1"`
-	BytesL2   int               `json:"bytes_l2"`
-	Units     int               `json:"corpus_units"`
-	Windows   int64             `json:"windows_tested"`
-	Outcome   string            `json:"outcome"`
+	Run       int            `json:"run"`
+	Err       string         `json:"err,omitempty"`
+	Requests  []string       `json:"requests"`
+	Certs     []c19CertReq   `json:"cert_requests"`
+	Files     []c19FileObs   `json:"files"`
+	AgentList map[string]int `json:"agent_entries,omitempty"`
+	Captured  []string       `json:"captured_keys"`
+	BytesL1   int            `json:"bytes_l1"`
+	BytesL2   int            `json:"bytes_l2"`
+	Units     int            `json:"corpus_units"`
+	Windows   int64          `json:"windows_tested"`
+	Outcome   string         `json:"outcome"`
 	msClient  int64
 	msScan    int64
 	reqs      []*c19Req
@@ -1222,16 +1236,61 @@ func c19ClientRun(p c19Point, env *c19Env, run int) (*c19RunObs, []c19Viol, erro
 				What: fmt.Sprintf("a private key encoding (PEM PRIVATE KEY block / OpenSSH key / PKCS#1, PKCS#8 or SEC1 DER) occurs in the bytes sent: %s depth %d", u.Where, u.Level)})
 		}
 	}
-	for _, pub := range offered { // D2
-		for _, u := range corpus {
-			if strings.HasPrefix(u.Where, "L1") && u.Level == 0 {
-				continue // the same bytes are in the L2 stream
-			}
-			if comp := c19WindowLeak(pub, u.Data, &obs.Windows); comp != "" {
-				viols = append(viols, c19Viol{Key: fmt.Sprintf("C19|leak|%s|%s", comp, whereClass(u.Where)),
-					What: fmt.Sprintf("a window of the bytes sent is the private %s of the %s public key the client offered: %s depth %d", comp, c19PubKind(pub), u.Where, u.Level)})
+	{ // D2, spread over the available processors
+		type task struct {
+			pub  crypto.PublicKey
+			u    c19Unit
+			data []byte
+		}
+		var tasks []task
+		for _, pub := range offered {
+			span := c19MaxWindow(pub)
+			for _, u := range corpus {
+				if strings.HasPrefix(u.Where, "L1") && u.Level == 0 {
+					continue // the same bytes are in the L2 stream
+				}
+				const chunk = 512
+				for s := 0; s < len(u.Data); s += chunk {
+					e := s + chunk + span - 1
+					if e > len(u.Data) {
+						e = len(u.Data)
+					}
+					tasks = append(tasks, task{pub, u, u.Data[s:e]})
+					if e == len(u.Data) {
+						break
+					}
+				}
 			}
 		}
+		var wg sync.WaitGroup
+		var mu sync.Mutex
+		next := 0
+		for w := 0; w < runtime.GOMAXPROCS(0); w++ {
+			wg.Add(1)
+			go func() {
+				defer wg.Done()
+				for {
+					mu.Lock()
+					i := next
+					next++
+					mu.Unlock()
+					if i >= len(tasks) {
+						return
+					}
+					t := tasks[i]
+					var n int64
+					comp := c19WindowLeak(t.pub, t.data, &n)
+					mu.Lock()
+					obs.Windows += n
+					if comp != "" {
+						viols = append(viols, c19Viol{Key: fmt.Sprintf("C19|leak|%s|%s", comp, whereClass(t.u.Where)),
+							What: fmt.Sprintf("a window of the bytes sent is the private %s of the %s public key the client offered: %s depth %d", comp, c19PubKind(t.pub), t.u.Where, t.u.Level)})
+					}
+					mu.Unlock()
+				}
+			}()
+		}
+		wg.Wait()
 	}
 
 	// --- clause 2: private material only in files (and directories) closed to others
@@ -1584,7 +1643,7 @@ func init() {
 			return map[string]interface{}{"key_types": kts, "policies": []string{"password", "totp"}, "agent_modes": []string{"present", "absent", "nolifetime"},
 				"add_groups": []bool{false, true}, "runs_per_point": 2, "points": len(ps), "decode_depth": 2}
 		},
-		Shards: func(tier string) int { return 9 },
+		Shards: func(tier string) int { return 12 },
 		Run: func(c *vfeng.Ctx) {
 			fail := func(err error) {
 				if c.Res.HarnessErr == "" {
